@@ -3,7 +3,7 @@
 //           `disabled_validators` / `enabled_validators` (the SET of names), `globs` (positional + `list`
 //           globs as one glob set, Err on an invalid pattern), `ignored_globs` (the --ignore set)
 //   M2      `repository_root_path` (src/main.rs): the nearest ancestor, the path itself included, that has a
-//           `.git` or `.hg` DIRECTORY, else Err
+//           `.git` ENTRY (file or directory) or a `.hg` directory, else Err
 //   FS1..3  `FileSystemImpl::{new, read_to_string, walk}` (src/blocks.rs): every read is `root.join(path)`;
 //           the walk skips directories, reports paths relative to the root, passes errors on
 //   M1c     `ValidationContext::new`
@@ -215,14 +215,14 @@ verif_osstring_from($a)
 //@unit id=M2 file=src/main.rs fn=repository_root_path ret=r
 //@contract
     ensures
-        r matches Ok(root) ==> nearest_repo_root(current_path, root), // [M2.post.nearest_ancestor_with_git_or_hg_dir]
+        r matches Ok(root) ==> nearest_repo_root(current_path, root), // [M2.post.nearest_ancestor_with_git_entry_or_hg_dir]
         r is Err ==> no_repo_root(current_path), // [M2.post.err_only_without_root]
         // summary used by M1 (the nearest root is unique: `lemma_nearest_root_is_spec`)
         r matches Ok(root) ==> nearest_repo_root(current_path, root) && repo_root_spec(current_path) == Some(root), // [M2.post.is_spec]
         r is Err ==> repo_root_spec(current_path) is None,
 //@macro rule=E1 name=anyhow to=<<anyhow::verif_err()>> optional=1
 //@closure rule=E12 find=<<|path|>> nth=0 of=2 params=<<|path: &&Path|>> ret=<<hit: bool>>
-            ensures hit == is_repo_root(path_owned(*path)), // [M2.closure.git_or_hg_directory]
+            ensures hit == is_repo_root(path_owned(*path)), // [M2.closure.git_entry_or_hg_directory]
 //@closure rule=E12 find=<<|path|>> params=<<|path: &Path|>> ret=<<owned: PathBuf>>
             ensures owned == path_owned(path), // [M2.closure.owned_copy]
 //@chain rule=E13 find=<<.join(>> to=verif_path_join_str argkind=str count=all optional=1
@@ -337,8 +337,21 @@ pub uninterp spec fn env_var_spec(name: Seq<char>) -> Option<Seq<char>>;
 pub uninterp spec fn current_dir_spec() -> Option<PathBuf>;
 /// `std::fs::canonicalize(p)` (`None` = `Err`)
 pub uninterp spec fn canonicalize_spec(p: PathBuf) -> Option<PathBuf>;
-/// everything that can be read from stdin (`None` = read error / not UTF-8)
-pub uninterp spec fn stdin_text() -> Option<Seq<char>>;
+/// everything that can be read from stdin, as BYTES (`None` = I/O error; the encoding plays no role)
+pub uninterp spec fn stdin_bytes() -> Option<Seq<u8>>;
+/// `String::from_utf8_lossy`: the text of a byte sequence, invalid sequences replaced by U+FFFD (total)
+pub uninterp spec fn lossy_utf8_spec(bytes: Seq<u8>) -> Seq<char>;
+/// the byte sequence is valid UTF-8 (what `Read::read_to_string` insists on)
+pub uninterp spec fn utf8_valid(bytes: Seq<u8>) -> bool;
+
+/// C01 "any ordinary two-way diff ... whatever the files contain": the diff text is the lossy decoding of
+/// stdin: only an I/O error makes it unavailable, never the encoding of a quoted line
+pub open spec fn stdin_text() -> Option<Seq<char>> {
+    match stdin_bytes() {
+        Some(b) => Some(lossy_utf8_spec(b)),
+        None => None,
+    }
+}
 /// `diff_parser::line_changes_from_diff` (unit Da of group difflines) as a function, `None` = `Err`
 pub uninterp spec fn diff_line_changes_spec(diff: Seq<char>) -> Option<Map<PathBuf, Vec<LineChange>>>;
 /// `blocks::parse_blocks` (unit B7 of group blocksel) as a function of its arguments, `None` = `Err`
@@ -508,18 +521,61 @@ pub fn verif_is_terminal(s: std::io::Stdin) -> (r: bool)
     ensures r == stdin_is_terminal(),
 { use std::io::IsTerminal; s.is_terminal() }
 
-/// E13 shim: `stdin.read_to_string(&mut buf)` (`std::io::Read`, a trait method; "Read all bytes until EOF
-/// in this source, appending them to buf"). Body = the identical std call.
+/// E13 shim: `stdin.read_to_end(&mut buf)` (`std::io::Read`, a trait method; "Read all bytes until EOF in this
+/// source, placing them into buf"; fails only with an I/O error). Body = the identical std call.
 /// Call-site obligations (M1): only after the command line was accepted, and only when NOT in terminal mode.
+#[verifier::external_body]
+pub fn verif_stdin_read_to_end(s: std::io::Stdin, buf: &mut Vec<u8>) -> (r: Result<usize, std::io::Error>)
+    requires
+        !cli_rejected(), // [M1.post.invalid_flags_rejected_before_reading_the_diff]
+        !terminal_mode(), // [M1.post.diff_read_only_when_not_terminal]
+    ensures
+        r is Ok ==> (stdin_bytes() matches Some(b) && final(buf)@ == old(buf)@ + b),
+        r is Err ==> stdin_bytes() is None,
+{ use std::io::Read; let mut s = s; s.read_to_end(buf) }
+
+/// E13 shim: `stdin.read_to_string(&mut buf)` (NOT used by the repaired tree). std doc: "If the data in this
+/// stream is not valid UTF-8 then an error is returned and buf is unchanged": the call can fail because of
+/// the ENCODING of stdin, which C01 forbids for a diff; it is therefore only admissible where stdin is known
+/// to be valid UTF-8 - an obligation `main` cannot meet (labelled clause below).
 #[verifier::external_body]
 pub fn verif_stdin_read_to_string(s: std::io::Stdin, buf: &mut String) -> (r: Result<usize, std::io::Error>)
     requires
         !cli_rejected(), // [M1.post.invalid_flags_rejected_before_reading_the_diff]
         !terminal_mode(), // [M1.post.diff_read_only_when_not_terminal]
+        stdin_bytes() matches Some(b) ==> utf8_valid(b), // [M1.post.diff_accepted_whatever_its_encoding]
     ensures
-        r is Ok ==> (stdin_text() matches Some(t) && final(buf)@ == old(buf)@ + t),
-        r is Err ==> stdin_text() is None,
+        r is Ok ==> (stdin_bytes() matches Some(b) && utf8_valid(b) && final(buf)@ == old(buf)@ + lossy_utf8_spec(b)),
+        r is Err ==> (stdin_bytes() matches Some(b) ==> !utf8_valid(b)),
 { use std::io::Read; let mut s = s; s.read_to_string(buf) }
+
+/// E13 shim: `String::from_utf8_lossy(&bytes)` (returns `Cow<'_, str>`, outside Verus; the call site borrows
+/// the result as `&str`). Body = the same std call, made owned.
+#[verifier::external_body]
+pub fn verif_from_utf8_lossy(v: &Vec<u8>) -> (r: String)
+    ensures r@ == lossy_utf8_spec(v@),
+{ String::from_utf8_lossy(v).into_owned() }
+
+#[verifier::external_type_specification]
+#[verifier::external_body]
+pub struct ExFromUtf8Error(std::string::FromUtf8Error);
+
+/// E1: `?` on a `FromUtf8Error`
+impl From<std::string::FromUtf8Error> for anyhow::Error {
+    #[verifier::external_body]
+    fn from(e: std::string::FromUtf8Error) -> anyhow::Error { anyhow::verif_err() }
+}
+
+/// E13 shim: `String::from_utf8(bytes)` (NOT used by the repaired tree): the strict decoding fails on invalid
+/// UTF-8, i.e. because of the encoding of stdin; admissible only where validity is known (as `read_to_string`).
+#[verifier::external_body]
+pub fn verif_from_utf8_strict(v: Vec<u8>) -> (r: Result<String, std::string::FromUtf8Error>)
+    requires
+        utf8_valid(v@), // [M1.post.diff_accepted_whatever_its_encoding]
+    ensures
+        r matches Ok(t) ==> t@ == lossy_utf8_spec(v@),
+        r is Ok <==> utf8_valid(v@),
+{ String::from_utf8(v) }
 
 /// E13 shim: `languages.keys().collect()` into a `HashSet<&OsString>`. Body = the identical std chain;
 /// std docs of `HashMap::keys` ("visiting all keys") and `FromIterator for HashSet`.
@@ -623,7 +679,7 @@ pub mod diff_parser {
     pub fn line_changes_from_diff(patch_diff: &str) -> (r: anyhow::Result<HashMap<PathBuf, Vec<LineChange>>>)
         requires
             !cli_rejected(), // [M1.post.invalid_flags_rejected_before_parsing_the_diff]
-            Some(patch_diff@) == stdin_text(), // [M1.post.diff_is_what_stdin_delivered]
+            Some(patch_diff@) == stdin_text(), // [M1.post.diff_is_the_lossy_text_of_stdin]
         ensures
             r matches Ok(m) ==> diff_line_changes_spec(patch_diff@) == Some(m@),
             r is Err ==> diff_line_changes_spec(patch_diff@) is None,
@@ -737,7 +793,12 @@ pub mod validators {
     main_run_and_report(context, sync_validators, async_validators)?;
 //@chain rule=E13 find=<<.keys().collect()>> to=verif_keys_collect_set recvprefix=<<&>> optional=1
 //@chain rule=E13 find=<<.is_terminal()>> to=verif_is_terminal count=all optional=1
+//@chain rule=E13 find=<<.read_to_end(>> to=verif_stdin_read_to_end count=all optional=1
 //@chain rule=E13 find=<<.read_to_string(>> to=verif_stdin_read_to_string count=all optional=1
+//@edit rule=E13 find=<<String::from_utf8_lossy(>> count=all optional=1
+verif_from_utf8_lossy(
+//@edit rule=E13 find=<<String::from_utf8(>> count=all optional=1
+verif_from_utf8_strict(
 //@edit rule=E13 find=<<validators::DETECTOR_FACTORIES>> count=all optional=1
 validators::verif_detector_factories()
 //@end
